@@ -1,0 +1,49 @@
+//go:build verif
+
+// Contracts for the deductive verifier in /verif (kpv). This file contains
+// comments only: it adds no code with or without the "verif" build tag.
+// Syntax: see /verif/DESIGN.md §3. Each "//@ func <key>" block gives the
+// contract of one function; clauses are tagged with the property ids they serve.
+
+package server
+
+//@ func server.EnsureTrailingSlash
+//@ assigns nothing
+//@ ensures[C04] def: result == ets(path)
+
+//@ func (*server.LoadBalancer).nextTarget
+//@ requires inv_index: 0 <= lb.index && lb.index < 1000000000
+//@ assigns lb.index
+//@ ensures[C09] empty: len(old(lb.healthy)) == 0 ==> result == nil && lb.index == old(lb.index)
+//@ ensures[C09] step: len(old(lb.healthy)) > 0 ==> lb.index == (old(lb.index) + 1) % len(old(lb.healthy)) && result == old(lb.healthy)[lb.index]
+
+//@ func server.NewRolloutController
+//@ assigns nothing
+//@ ensures[C10] fresh: fresh(result)
+//@ ensures[C10] fields: result.Percentage == percentage && result.PercentageSplitPoint == fpSplit(percentage) && result.Allowlist == allowlist
+
+//@ func (*server.RolloutController).valueInRolloutPercentage
+//@ assigns nothing
+//@ ensures[C10] threshold: result == inPercentage(value, rc.PercentageSplitPoint)
+
+//@ func (*server.RolloutController).RequestUsesRolloutGroup
+//@ requires r != nil
+//@ assigns nothing
+//@ ensures[C10] decision: rolloutValue(ref(r)) != "" ==> result == (in(rolloutValue(ref(r)), rc.Allowlist) || inPercentage(rolloutValue(ref(r)), rc.PercentageSplitPoint))
+//@ ensures[C10] no_cookie: !hasCookie(ref(r), "kamal-rollout") ==> !result
+
+//@ func (*server.Service).loadBalancerForRequest
+//@ requires req != nil && req.URL != nil
+//@ assigns nothing
+//@ ensures[C10] no_split: (s.rollout == nil || s.rolloutController == nil) ==> result == s.active
+//@ ensures[C10] no_cookie: !hasCookie(ref(req), "kamal-rollout") ==> result == s.active
+//@ ensures[C10] split: s.rollout != nil && s.rolloutController != nil && rolloutValue(ref(req)) != "" ==> result == ite(in(rolloutValue(ref(req)), s.rolloutController.Allowlist) || inPercentage(rolloutValue(ref(req)), s.rolloutController.PercentageSplitPoint), s.rollout, s.active)
+
+//@ func (*server.Service).SetRolloutSplit
+//@ assigns s.rolloutController
+//@ ensures[C10] rejected: old(s.rollout) == nil ==> err == ErrorRolloutTargetNotSet && s.rolloutController == old(s.rolloutController)
+//@ ensures[C10] accepted: old(s.rollout) != nil ==> err == nil && fresh(s.rolloutController) && s.rolloutController.Percentage == percentage && s.rolloutController.PercentageSplitPoint == fpSplit(percentage) && s.rolloutController.Allowlist == allowlist
+
+//@ func (*server.Service).StopRollout
+//@ assigns s.rolloutController
+//@ ensures[C10] cleared: err == nil && s.rolloutController == nil
